@@ -169,8 +169,9 @@ def gen_random(rnd):
             stmts.append(apm.simple(rnd.choice([".even", ".odd"])))
             tags.append("evenodd")
         else:
-            stmts.append(apm.blk(".align", apm.num(rnd.randrange(1, 65), rnd.choice([None, "d"]))))
-            tags.append("align")
+            n_al = rnd.randrange(1, 65) if rnd.random() < 0.85 else rnd.choice([0, -1, -2, -4, -64, 65536, 0o200000])
+            stmts.append(apm.blk(".align", apm.num(n_al, rnd.choice([None, "d"]))))
+            tags.append("align" if n_al > 0 else f"align|{n_al}")
     # some statements become the body of a '.repeat' (with an alignment directive ahead of an odd-sized payload): every copy is laid
     # out at its own address
     for i in range(1, len(stmts)):
@@ -181,9 +182,24 @@ def gen_random(rnd):
             tags.append("repeat|" + (lead[0].d if lead else "-") + f"|{charset}")
     stmts.append(apm.label("tail"))
     stmts.append(apm.data(".byte", apm.num(0o125)))
+    aux = {}
+    r_lay = rnd.random()
+    if r_lay < 0.2:
+        # the base is stated after the code (odd bases too): parity of every address is unknown while the statements are compiled
+        link = stmts.pop(0)
+        if rnd.random() < 0.3:
+            link = apm.link(apm.num(rnd.choice([0o1001, 0o2001, 0o40001, 1])))
+        stmts.append(link)
+        tags.append(f"link-last|{charset}")
+    elif r_lay < 0.4 and len(stmts) > 4:
+        # the second half of the statements in an included file, which then starts at whatever parity the first half ends on
+        k = rnd.randrange(2, len(stmts) - 1)
+        aux["tail6.mac"] = apm.SrcFile("tail6.mac", stmts[k:])
+        stmts = stmts[:k] + [apm.include("tail6.mac")]
+        tags.append(f"included-tail|{charset}")
     for nm, v in consts.items():
         stmts.insert(rnd.randrange(1, len(stmts) + 1), apm.assign(nm, apm.num(v)))
-    return apm.Program([apm.SrcFile("f0.mac", stmts)], charset=charset), tags
+    return apm.Program([apm.SrcFile("f0.mac", stmts)], aux=aux, charset=charset), tags
 
 
 def run_shard(spec):
